@@ -28,6 +28,7 @@ func main() {
 		noMutants = flag.Bool("no-mutants", false, "thorough tier without the mutant self-test")
 		verbose   = flag.Bool("v", false, "print every obligation")
 		listP     = flag.Bool("list-properties", false, "print registered properties as JSON")
+		crossB    = flag.String("cross-benign", "", "self-test: run benign variants (all, or those whose name contains the value) against ALL properties; exit 1 if any fires")
 		listS     = flag.Bool("list-stale", false, "debug: list stale-read lint hits")
 		listW     = flag.Bool("list-writers", false, "debug: list controller-runtime writer call sites")
 		explain   = flag.String("explain", "", "replay: print the violated obligations recorded in this evidence file, then re-run")
@@ -83,6 +84,9 @@ func main() {
 	if *explain != "" {
 		printEvidenceViolations(*explain)
 	}
+	if *crossB != "" {
+		os.Exit(runCrossBenign(*repo, *verifDir, *crossB))
+	}
 
 	var ids []string
 	switch {
@@ -96,7 +100,7 @@ func main() {
 			}
 			ids = append(ids, id)
 		}
-	case *dump != "", *listW, *listS:
+	case *dump != "", *listW, *listS, *crossB != "":
 	default:
 		fmt.Fprintln(os.Stderr, "usage: pkocheck -property <id|all> [-tier quick|thorough]")
 		os.Exit(2)
@@ -201,13 +205,26 @@ func main() {
 				exit = 1
 			}
 		}
-		if *expect != "" || *expectOK {
+		if *expectOK {
+			// benign variant: accumulate over all requested properties
+			if len(res.Violations) > 0 {
+				for _, o := range res.Violations {
+					fmt.Printf("SELFTEST fired %s: %s\n", o.Key, o.Detail)
+				}
+				exit = 1
+			}
+			continue
+		}
+		if *expect != "" {
 			os.Exit(selfTestVerdict(res, *expect, *expectOK))
 		}
 		report(prog, res, evPath, *verbose)
 		if len(res.Violations) > 0 {
 			exit = 1
 		}
+	}
+	if *expectOK && exit == 0 {
+		fmt.Println("SELFTEST silent")
 	}
 	os.Exit(exit)
 }
